@@ -1,6 +1,6 @@
 SPECIFICATION Spec
 CONSTANTS
-  Symbols = {"and", "or", "cond", "T", "F", "tb", "fail", "div0"}
+  Symbols = {"and", "or", "cond", "T", "F", "tb", "fail", "div0", "nofn"}
   MaxOps = 2
   MaxSyms = 7
   EmitVectors = TRUE
